@@ -40,12 +40,23 @@ std::string strf(const char *fmt, ...) {
 }
 
 std::string hexs(const void *p, size_t n, size_t cap) {
+    // printable strings are shown quoted, mostly-printable ones C-escaped, binary data as hex
     const unsigned char *b = (const unsigned char *)p;
     std::string o;
-    bool printable = n > 0;
-    for (size_t i = 0; i < n && i < cap; i++) if (b[i] < 0x20 || b[i] > 0x7e || b[i] == '"' || b[i] == '\\') printable = false;
-    if (printable) { o = "'" + std::string((const char *)b, n < cap ? n : cap) + "'"; }
-    else { static const char *hx = "0123456789abcdef"; o = "x"; for (size_t i = 0; i < n && i < cap; i++) { o.push_back(hx[b[i] >> 4]); o.push_back(hx[b[i] & 15]); } }
+    size_t m = n < cap ? n : cap, plain = 0, soft = 0;
+    for (size_t i = 0; i < m; i++) { if (b[i] >= 0x20 && b[i] <= 0x7e && b[i] != '"' && b[i] != '\\') plain++; else if (b[i] == '\n' || b[i] == '\t' || b[i] == '\r' || b[i] == '"' || b[i] == '\\' || b[i] == 0) soft++; }
+    static const char *hx = "0123456789abcdef";
+    if (n > 0 && plain == m) o = "'" + std::string((const char *)b, m) + "'";
+    else if (n > 0 && (plain + soft) * 10 >= m * 8 && plain > 0) {
+        o = "\"";
+        for (size_t i = 0; i < m; i++) {
+            unsigned char ch = b[i];
+            if (ch == '\n') o += "\\n"; else if (ch == '\t') o += "\\t"; else if (ch == '\r') o += "\\r"; else if (ch == '"') o += "\\\""; else if (ch == '\\') o += "\\\\";
+            else if (ch >= 0x20 && ch <= 0x7e) o.push_back((char)ch);
+            else { o += "\\x"; o.push_back(hx[ch >> 4]); o.push_back(hx[ch & 15]); }
+        }
+        o += "\"";
+    } else { o = "x"; for (size_t i = 0; i < m; i++) { o.push_back(hx[b[i] >> 4]); o.push_back(hx[b[i] & 15]); } }
     if (n > cap) o += strf("..(%zu)", n);
     return o;
 }
